@@ -553,11 +553,14 @@ class HistGen:
                 moves += ['ex', 'save', 'pop', 'publish'] if top[0] == 'P' else ['save', 'pop', 'publish']
         if rng.random() < self.wild:
             moves = ['im', 'ap', 'ex', 'mu', 'subst', 'mp', 'gen', 'inst0', 'ipat', 'pop', 'save', 'load', 'publish',
-                     'wildpub', 'inst_short', 'inst_perm', 'ipat_perm']
+                     'wildpub', 'inst_short', 'inst_perm', 'ipat_perm', 'subst_swapped']
         m = rng.choice(moves)
         sh.trim()
         if m in ('inst_short', 'inst_perm', 'ipat_perm'):
             self.bad_instantiate(sh, calls, m)
+            return
+        if m == 'subst_swapped':
+            self.subst_swapped(sh, calls)
             return
 
         if m == 'atom':
@@ -739,6 +742,22 @@ class HistGen:
                     sh.published.append(t[1])
                     sh.mark_top()
 
+    def subst_swapped(self, sh, calls):
+        """esubst / ssubst with its two operands pushed in the OPPOSITE order (pattern first, plug on top);
+        the checker pops the pattern first, so the tracker must refuse"""
+        rng, cfg = self.rng, self.cfg
+        k = 'es' if rng.random() < 0.5 else 'ss'
+        x = cfg.max_id + 1
+        body = mv(rid(rng, cfg))
+        plug = mv(rid(rng, cfg) + cfg.max_id + 2)            # a different metavariable: well formed both ways round
+        build_calls(body, calls)
+        build_calls(plug, calls)
+        calls.append(f'{k}:{x}:{show(body)}:{show(plug)}')
+
+    def pattern_via_interpreter(self, p, calls):
+        """`interpreter.pattern(p)`: the real traversal of interpreter.py decides the calls and their order"""
+        calls.append('pt:' + show(p))
+
     def bad_instantiate(self, sh, calls, kind):
         """instantiate / instantiate_pattern whose plugs on the stack do NOT match delta: too few of them
         (`inst_short`: the static ProofExp.instantiate shape, proof pushed, plugs not or only partly
@@ -788,7 +807,8 @@ class HistGen:
             claims = [gen_pat(self.rng, 1, self.cfg) for _ in range(self.rng.randrange(3))]
         return claims, calls, sh
 
-    def module_history(self, n_ax, n_cl, extra=0.15, permute=0.0, repeat_ax=0.0, bad_inst=0.0):
+    def module_history(self, n_ax, n_cl, extra=0.15, permute=0.0, repeat_ax=0.0, bad_inst=0.0, via_pattern=0.0,
+                       many_syms=0):
         """gamma (axioms published), claims (reversed), proofs: the shape proof.py produces, with
         random extra moves in between (probability `extra` after each item) -> (claims, calls, shadow)"""
         rng, cfg = self.rng, self.cfg
@@ -803,17 +823,34 @@ class HistGen:
         def maybe_bad():
             # at the START of a phase the stack is empty: the only place where too few plugs lie under the proof
             if rng.random() < bad_inst:
-                self.bad_instantiate(sh, calls, rng.choice(['inst_short', 'inst_short', 'inst_perm', 'ipat_perm']))
+                kind = rng.choice(['inst_short', 'inst_short', 'inst_perm', 'ipat_perm', 'subst_swapped'])
+                if kind == 'subst_swapped':
+                    self.subst_swapped(sh, calls)
+                else:
+                    self.bad_instantiate(sh, calls, kind)
+
+        def build(p):
+            # either the call sequence the harness knows, or the real Interpreter.pattern traversal
+            if rng.random() < via_pattern:
+                q = notate(rng, p) if rng.random() < self.notation else p
+                self.pattern_via_interpreter(q, calls)
+            elif rng.random() < self.notation:
+                build_calls(notate(rng, p), calls)
+            else:
+                build_calls(p, calls)
 
         maybe_bad()
         extras()
-        for _ in range(n_ax):
-            a = gen_pat(rng, rng.choice([1, 2, 2]), cfg)
+        ax_list = [gen_pat(rng, rng.choice([1, 2, 2]), cfg) for _ in range(n_ax)]
+        if via_pattern and rng.random() < 0.5:
+            # a substitution reached through Interpreter.pattern (well formed for the checker)
+            head = mv(rid(rng, cfg))
+            ax_list.append(('S' if rng.random() < 0.6 else 'E', head, cfg.max_id + 1, ('y', rsym(rng, cfg))))
+        # many distinct symbols (more than any plausible cache), the early ones are used again later
+        ax_list += [('y', 2000 + j) for j in range(many_syms)]
+        for a in ax_list:
             axioms.append(a)
-            if rng.random() < self.notation:
-                build_calls(notate(rng, a), calls)
-            else:
-                build_calls(a, calls)
+            build(a)
             sh.stack.append(('P', a))
             calls.append('pa:' + show(self.arg(a)))
             sh.memory.append(('T', a))
@@ -864,7 +901,7 @@ class HistGen:
         claims = [c for c, _, _ in proofs]
         extras()
         for c, _, _ in reversed(proofs):
-            build_calls(c, calls)
+            build(c)
             sh.stack.append(('P', c))
             calls.append('pc:' + show(self.arg(c)))
             sh.mark_top()
